@@ -59,6 +59,9 @@ func versionCases(fn *ssa.Function, isV func(ssa.Value) bool) (cases []int64, ha
 	sort.Slice(cases, func(i, j int) bool { return cases[i] < cases[j] })
 	// default: a return of the unsupported-version error reachable when all comparisons are false
 	for _, ret := range core.Returns(fn) {
+		if len(ret.Results) == 0 {
+			continue
+		}
 		ev := core.ResolveSpill(ret.Results[len(ret.Results)-1])
 		if u, ok := ev.(*ssa.UnOp); ok {
 			if g, ok := u.X.(*ssa.Global); ok && strings.Contains(g.Name(), "Unsupported") {
@@ -72,7 +75,7 @@ func versionCases(fn *ssa.Function, isV func(ssa.Value) bool) (cases []int64, ha
 func c19(c *Ctx) {
 	p, r := c.P, c.R
 	r.Technique = "single-source value-flow check of every version-dependent branch; sibling agreement of the version sets handled by accept building, accept parsing and the advertised default; must-pass-through (cut) checks for error propagation and error-gated caching in the negotiation helper"
-	r.Explanation = "Decides: (R1) every version-dependent branch (accept building, accept parsing, uTP framing in both directions, the RPC's bit-list conversion) takes its operand from the one negotiation helper applied to a peer record, and every caller of the helper returns without transfer when it reports an error; (R2) the version sets handled by accept building and accept parsing are equal to each other and to the advertised default set, both reject other versions with the unsupported-version error, and the uTP encoder and decoder dispatch on the same version constant to the inverse pair of framing functions; (R3) in the helper: a cached value is returned as is, an absent record key yields the first local version, the computed error is returned, the result is the highest-common-version function applied to (local versions, peer versions), and the cache is written only on paths where the error is nil. Not decided: the max-of-intersection computation over all subsets (value level), live transfers."
+	r.Explanation = "Decides: (R1) every version-dependent branch (accept building, accept parsing, uTP framing in both directions, the RPC's bit-list conversion) takes its operand from the one negotiation helper applied to a peer record, and every caller of the helper returns without transfer when it reports an error; the record given to the helper is the one the exchange came with (followed through parameters and captured variables to the talk handler), never one looked up in the routing table; (R2) the version sets handled by accept building and accept parsing are equal to each other and to the advertised default set, both reject other versions with the unsupported-version error, and the uTP encoder and decoder dispatch on the same version constant to the inverse pair of framing functions; (R3) in the helper: a cached value is returned as is, an absent record key yields the first local version, the computed error is returned, the result is the highest-common-version function applied to (local versions, peer versions), and the cache is written only on paths where the error is nil. Not decided: the max-of-intersection computation over all subsets (value level), live transfers."
 	r.Assumptions = []string{"enr.IsNotFound identifies an absent key", "the versions cache is a faithful map"}
 	r.Floor("R1.single-source", 5)
 	r.Floor("R1.error-stops", 5)
@@ -124,6 +127,14 @@ func c19(c *Ctx) {
 			r.Check(w == nil, "R1.error-stops", key, p.Pos(call.Pos()), "nothing proceeds unless negotiation succeeded", "the exchange can proceed although no common version was found: "+p.PathString(w))
 			// the argument is a peer record (an *enode.Node parameter or derived from one / from an ENR)
 			r.Check(ver != nil, "R1.single-source", key+" result-used", p.Pos(call.Pos()), "the negotiated version is bound", "the negotiated version is discarded")
+			// ... the record of this exchange: what the peer advertises now is in the record the
+			// session (or the caller) supplied; a copy looked up in the routing table can be an older
+			// version of it (inbound traffic does not refresh table entries), and the two ends would
+			// then compute the common version from different sets
+			if len(call.Call.Args) > 0 {
+				bad := staleRecordSource(p, call.Call.Args[len(call.Call.Args)-1], fn, 0, map[ssa.Value]bool{})
+				r.Check(bad == "", "R1.single-source", key+" peer-record", p.Pos(call.Pos()), "negotiates on the record supplied with the exchange", "the version is negotiated on a record taken from the routing table instead of the one the exchange came with ("+bad+"): after the peer changed its advertised versions the two ends settle on different versions until revalidation refreshes the entry")
+			}
 			if ver != nil {
 				consumers = append(consumers, consumer{fn, ver})
 			}
@@ -183,6 +194,24 @@ func c19(c *Ctx) {
 		res := cn.fn.Signature.Results()
 		if res.Len() > 0 && core.TypeName(res.At(0).Type()) == "CommonAccept" {
 			kind = "accept"
+		}
+		// the builder/parser written out in its caller: it makes both ACCEPT encodings itself
+		if kind == "other" {
+			made := map[string]bool{}
+			for _, b := range cn.fn.Blocks {
+				for _, in := range b.Instrs {
+					if al, ok := in.(*ssa.Alloc); ok && al.Heap {
+						if pt, ok := al.Type().(*types.Pointer); ok {
+							if tn := core.TypeName(pt.Elem()); tn == "Accept" || tn == "AcceptV1" {
+								made[tn] = true
+							}
+						}
+					}
+				}
+			}
+			if len(made) == 2 {
+				kind = "accept"
+			}
 		}
 		sets = append(sets, vs{cn.fn, cases, def, kind})
 	}
@@ -322,9 +351,46 @@ func c19(c *Ctx) {
 		for _, f := range []*ssa.Function{encF, decF} {
 			raw := false
 			for _, ret := range core.Returns(f) {
+				if len(ret.Results) == 0 {
+					continue
+				}
 				if pa, ok := core.ResolveSpill(ret.Results[0]).(*ssa.Parameter); ok && pa.Parent() == f {
 					raw = true
 				}
+			}
+			if !raw {
+				// the dispatch written out where the bytes are used: `if version == 1 { data = frame(data) }`
+				// leaves data as it was on the other branch when the framed bytes replace their own input
+				core.Calls(f, func(ci ssa.CallInstruction) {
+					fc, isCall := ci.(*ssa.Call)
+					cf := core.StaticCalleeFn(ci)
+					if !isCall || cf == nil || (len(core.CallsTo(cf, lebEncode32)) == 0 && len(core.CallsTo(cf, lebDecode32)) == 0) || len(fc.Call.Args) == 0 {
+						return
+					}
+					in := fc.Call.Args[len(fc.Call.Args)-1]
+					outs := []ssa.Value{fc}
+					for _, rf := range *fc.Referrers() {
+						if ex, isEx := rf.(*ssa.Extract); isEx && ex.Index == 0 {
+							outs = append(outs, ex)
+						}
+					}
+					for _, out := range outs {
+						for _, rf := range *out.Referrers() {
+							switch x := rf.(type) {
+							case *ssa.Store:
+								if ld, isLd := in.(*ssa.UnOp); isLd && x.Val == out && ld.Op == token.MUL && ld.X == x.Addr {
+									raw = true
+								}
+							case *ssa.Phi:
+								for _, e := range x.Edges {
+									if e == in {
+										raw = true
+									}
+								}
+							}
+						}
+					}
+				})
 			}
 			r.Check(raw, "R2.version-sets", core.FuncName(f)+" raw-branch", p.Pos(f.Pos()), "other versions pass the bytes through unchanged", "the non-prefixed branch does not return its input unchanged")
 		}
@@ -519,7 +585,17 @@ func checkHighestCommon(c *Ctx, rule string, hf *ssa.Function) {
 			if !ok || !core.InLoop(b) {
 				continue
 			}
-			if bt, ok := ph.Type().Underlying().(*types.Basic); !ok || bt.Kind() != types.Uint8 {
+			if bt, ok := ph.Type().Underlying().(*types.Basic); !ok || bt.Info()&types.IsInteger == 0 {
+				continue
+			}
+			// the carried value is what the function returns (possibly converted)
+			returned := false
+			for _, ret := range core.Returns(hf) {
+				if len(ret.Results) > 0 && core.Derives(ret.Results[0], func(v ssa.Value) bool { return v == ssa.Value(ph) }, core.DeriveOpts{}) {
+					returned = true
+				}
+			}
+			if !returned {
 				continue
 			}
 			for _, b2 := range hf.Blocks {
@@ -544,4 +620,84 @@ func checkHighestCommon(c *Ctx, rule string, hf *ssa.Function) {
 		}
 	}
 	r.Check(okAll, rule, hname+" considers-every-element", p.Pos(hf.Pos()), "no success exit from inside a loop: every element is considered", "the function can return a version before having looked at every element of the lists")
+}
+
+// staleRecordSource follows a peer record back through phis, parameters (to every call site, up
+// to 4 levels) and captured variables; it reports a source that is a lookup in the routing table.
+func staleRecordSource(p *core.Prog, v ssa.Value, in *ssa.Function, depth int, seen map[ssa.Value]bool) string {
+	v = core.Unwrap(v)
+	if v == nil || seen[v] || depth > 4 {
+		return ""
+	}
+	seen[v] = true
+	switch x := v.(type) {
+	case *ssa.Phi:
+		for _, e := range x.Edges {
+			if bad := staleRecordSource(p, e, in, depth, seen); bad != "" {
+				return bad
+			}
+		}
+	case *ssa.Call:
+		if f := core.StaticCalleeFn(x); f != nil && f.Signature.Recv() != nil && core.TypeName(f.Signature.Recv().Type()) == "Table" {
+			return core.FuncName(f) + " at " + p.Pos(x.Pos())
+		}
+	case *ssa.UnOp:
+		if x.Op == token.MUL {
+			// the record inside a table entry
+			if t, f, ok := core.LoadedField(x); ok && t == "tableNode" && f == "Node" {
+				return "tableNode.Node at " + p.Pos(x.Pos())
+			}
+			if a, ok := x.X.(*ssa.Alloc); ok {
+				for _, rf := range *a.Referrers() {
+					if st, ok := rf.(*ssa.Store); ok && st.Addr == ssa.Value(a) {
+						if bad := staleRecordSource(p, st.Val, in, depth, seen); bad != "" {
+							return bad
+						}
+					}
+				}
+			}
+			if fv, ok := x.X.(*ssa.FreeVar); ok && in.Parent() != nil {
+				for i, f2 := range in.FreeVars {
+					if f2 != fv {
+						continue
+					}
+					for _, b := range in.Parent().Blocks {
+						for _, i2 := range b.Instrs {
+							if mc, ok := i2.(*ssa.MakeClosure); ok && mc.Fn == ssa.Value(in) && i < len(mc.Bindings) {
+								if al, ok := mc.Bindings[i].(*ssa.Alloc); ok {
+									for _, rf := range *al.Referrers() {
+										if st, ok := rf.(*ssa.Store); ok && st.Addr == ssa.Value(al) {
+											if bad := staleRecordSource(p, st.Val, in.Parent(), depth, seen); bad != "" {
+												return bad
+											}
+										}
+									}
+								}
+							}
+						}
+					}
+				}
+			}
+		}
+	case *ssa.Parameter:
+		idx := -1
+		for j, q := range in.Params {
+			if q == x {
+				idx = j
+			}
+		}
+		if idx < 0 {
+			return ""
+		}
+		for cf, css := range p.CallersOfFn(in) {
+			for _, s2 := range css {
+				if idx < len(s2.Common().Args) {
+					if bad := staleRecordSource(p, s2.Common().Args[idx], cf, depth+1, seen); bad != "" {
+						return bad
+					}
+				}
+			}
+		}
+	}
+	return ""
 }
